@@ -1,0 +1,372 @@
+//go:build verif && (verif_all || verif_c16)
+// +build verif
+// +build verif_all verif_c16
+
+package gocql
+
+// Verification hooks (build tag `verif`) for the event / refresh / pool+policy propagation part of
+// C16: a dial-free Session (the REAL ring, pool object and selection policy; NumConns = 0 so the
+// pool never dials) on which the external harness calls the REAL handleNodeEvent / handleNodeUp /
+// handleNodeDown / handleNodeConnected / refreshRing, and snapshots of ring, pools, policy lists,
+// host states and of the refresh debouncer. Add-only thin wrappers.
+
+import (
+	"context"
+	"errors"
+	"net"
+	"time"
+
+	"github.com/gocql/gocql/internal/lru"
+)
+
+// VerifEvConfig configures a logical-tier session.
+type VerifEvConfig struct {
+	Policy                  HostSelectionPolicy
+	Filter                  HostFilter
+	DisableTopologyEvents   bool
+	DisableNodeStatusEvents bool
+	// Control != "" : dial a control connection to that address through Dialer (no heart beat goroutine)
+	// and populate the session from system.local / system.peers the way Session.init does.
+	Control string
+	Dialer  HostDialer
+	Proto   int
+}
+
+// VerifEvSession is a Session built like NewSession does, minus init() (no pool connections).
+type VerifEvSession struct {
+	S *Session
+}
+
+// NewVerifEvSession mirrors NewSession up to (not including) s.init(); the ring refresher gets a
+// one hour interval so that a debounced request stays observable as an armed timer.
+func NewVerifEvSession(c VerifEvConfig) (*VerifEvSession, error) {
+	host := c.Control
+	if host == "" {
+		host = "127.0.0.1"
+	}
+	cfgp := NewCluster(host)
+	cfg := *cfgp
+	cfg.NumConns = 0
+	cfg.ProtoVersion = c.Proto
+	if cfg.ProtoVersion == 0 {
+		cfg.ProtoVersion = 4
+	}
+	cfg.HostDialer = c.Dialer
+	cfg.Timeout = 5 * time.Second
+	cfg.ConnectTimeout = 5 * time.Second
+	cfg.ReconnectInterval = 0
+	cfg.WriteCoalesceWaitTime = 0
+	cfg.Logger = nopLogger{}
+	cfg.HostFilter = c.Filter
+	cfg.Events.DisableTopologyEvents = c.DisableTopologyEvents
+	cfg.Events.DisableNodeStatusEvents = c.DisableNodeStatusEvents
+	cfg.Events.DisableSchemaEvents = true
+	cfg.PoolConfig.HostSelectionPolicy = c.Policy
+	cfg.Consistency = One
+
+	ctx, cancel := context.WithCancel(context.TODO())
+	s := &Session{
+		cons:     cfg.Consistency,
+		prefetch: 0.25,
+		cfg:      cfg,
+		pageSize: cfg.PageSize,
+		stmtsLRU: &preparedLRU{lru: lru.New(cfg.MaxPreparedStmts)},
+		ctx:      ctx,
+		cancel:   cancel,
+		logger:   cfg.logger(),
+	}
+	s.schemaDescriber = newSchemaDescriber(s)
+	s.nodeEvents = newEventDebouncer("NodeEvents", s.handleNodeEvent, s.logger)
+	s.schemaEvents = newEventDebouncer("SchemaEvents", s.handleSchemaEvent, s.logger)
+	s.routingKeyInfoCache.lru = lru.New(cfg.MaxRoutingKeyInfo)
+	s.hostSource = &ringDescriber{session: s}
+	s.ringRefresher = newRefreshDebouncer(time.Hour, func() error { return refreshRing(s.hostSource) })
+	if cfg.PoolConfig.HostSelectionPolicy == nil {
+		cfg.PoolConfig.HostSelectionPolicy = RoundRobinHostPolicy()
+	}
+	s.pool = cfg.PoolConfig.buildPool(s)
+	s.policy = cfg.PoolConfig.HostSelectionPolicy
+	s.policy.Init(s)
+	s.executor = &queryExecutor{pool: s.pool, policy: cfg.PoolConfig.HostSelectionPolicy}
+	v := &VerifEvSession{S: s}
+	if c.Control == "" {
+		return v, nil
+	}
+	connCfg, err := connConfig(&s.cfg)
+	if err != nil {
+		return nil, err
+	}
+	s.connCfg = connCfg
+	hosts, err := addrsToHosts(s.cfg.Hosts, s.cfg.Port, s.logger)
+	if err != nil {
+		return nil, err
+	}
+	s.ring.endpoints = hosts
+	s.control = createControlConn(s)
+	cc := *s.connCfg
+	cc.disableCoalesce = true
+	conn, err := s.dial(s.ctx, hosts[0], &cc, s.control)
+	if err != nil {
+		return nil, err
+	}
+	if err := s.control.setupConn(conn); err != nil {
+		conn.Close()
+		return nil, err
+	}
+	// as Session.init: initial host lookup, filter, ring.addOrUpdate, pool.addHost, policy.AddHost
+	newHosts, partitioner, err := s.hostSource.GetHosts()
+	if err != nil {
+		return nil, err
+	}
+	s.policy.SetPartitioner(partitioner)
+	for _, h := range newHosts {
+		if s.cfg.filterHost(h) {
+			continue
+		}
+		h = s.ring.addOrUpdate(h)
+		s.pool.addHost(h)
+		s.policy.AddHost(h)
+	}
+	s.sessionStateMu.Lock()
+	s.isInitialized = true
+	s.sessionStateMu.Unlock()
+	return v, nil
+}
+
+// VerifEvHost builds a HostInfo as VerifRingHost does, with a data centre and a release version for
+// which handleNodeUp does not sleep (nodeUpDelay() == 0).
+func VerifEvHost(hostID string, nodeAddr net.IP, fromLocal bool, connectAddr net.IP, dc string) *HostInfo {
+	h := VerifRingHost(hostID, nodeAddr, fromLocal, connectAddr)
+	h.dataCenter = dc
+	h.version = cassVersion{Major: 3, Minor: 11, Patch: 4}
+	return h
+}
+
+// Add treats one host the way Session.init treats an initial host.
+func (v *VerifEvSession) Add(h *HostInfo) *HostInfo {
+	h = v.S.ring.addOrUpdate(h)
+	if v.S.cfg.filterHost(h) {
+		return h
+	}
+	v.S.pool.addHost(h)
+	v.S.policy.AddHost(h)
+	return h
+}
+
+// AddOrUpdate is ring.addOrUpdate alone (what controlConn.setupConn does with the control host).
+func (v *VerifEvSession) AddOrUpdate(h *HostInfo) *HostInfo { return v.S.ring.addOrUpdate(h) }
+
+// RemoveHost is Session.removeHost on the ring's host of that id (no-op when unknown).
+func (v *VerifEvSession) RemoveHost(hostID string) bool {
+	h := v.S.ring.getHost(hostID)
+	if h == nil {
+		return false
+	}
+	v.S.removeHost(h)
+	return true
+}
+
+// VerifNodeEvent is one EVENT frame: Kind "status" (Change UP/DOWN/anything) or "topology".
+type VerifNodeEvent struct {
+	Kind   string
+	Change string
+	Host   net.IP
+	Port   int
+}
+
+// HandleNodeEvent calls the real Session.handleNodeEvent on the frames.
+func (v *VerifEvSession) HandleNodeEvent(evs []VerifNodeEvent) {
+	frames := make([]frame, 0, len(evs))
+	for _, e := range evs {
+		if e.Kind == "topology" {
+			frames = append(frames, &topologyChangeEventFrame{change: e.Change, host: e.Host, port: e.Port})
+		} else {
+			frames = append(frames, &statusChangeEventFrame{change: e.Change, host: e.Host, port: e.Port})
+		}
+	}
+	v.S.handleNodeEvent(frames)
+}
+
+func (v *VerifEvSession) HandleNodeUp(ip net.IP, port int)   { v.S.handleNodeUp(ip, port) }
+func (v *VerifEvSession) HandleNodeDown(ip net.IP, port int) { v.S.handleNodeDown(ip, port) }
+
+// HandleNodeConnected calls handleNodeConnected(pool.host) for the pool of that host id — what
+// hostConnPool.fill does after a successful connect; false when there is no such pool.
+func (v *VerifEvSession) HandleNodeConnected(hostID string) bool {
+	v.S.pool.mu.RLock()
+	p, ok := v.S.pool.hostConnPools[hostID]
+	v.S.pool.mu.RUnlock()
+	if !ok {
+		return false
+	}
+	v.S.handleNodeConnected(p.host)
+	return true
+}
+
+// FillingStopped calls hostConnPool.fillingStopped(err) on the pool of that host id — what fill does
+// when the first connection attempt failed (it sleeps 31..130 ms, then the conviction policy decides).
+func (v *VerifEvSession) FillingStopped(hostID string) bool {
+	v.S.pool.mu.RLock()
+	p, ok := v.S.pool.hostConnPools[hostID]
+	v.S.pool.mu.RUnlock()
+	if !ok {
+		return false
+	}
+	p.fillingStopped(&net.OpError{Op: "dial", Err: errors.New("verif: connection refused")})
+	return true
+}
+
+// RefreshRing runs the real refreshRing synchronously (needs the control connection).
+func (v *VerifEvSession) RefreshRing() error { return refreshRing(v.S.hostSource) }
+
+// TakeRefreshRequested tells whether debounceRingRefresh() armed the refresh timer since the last
+// call, and disarms it.
+func (v *VerifEvSession) TakeRefreshRequested() bool {
+	d := v.S.ringRefresher
+	d.mu.Lock()
+	defer d.mu.Unlock()
+	return d.timer.Stop()
+}
+
+func (v *VerifEvSession) Close() { v.S.Close() }
+
+// VerifEvSnap is a copy of what the session knows about the cluster.
+type VerifEvSnap struct {
+	RingByID  map[string]*HostInfo
+	RingByIP  map[string]string
+	RingList  []*HostInfo
+	Pools     map[string]*HostInfo // host id -> pool.host
+	PoolConns map[string]int       // host id -> live connections
+	TA        []*HostInfo          // tokenAwareHostPolicy.hosts
+	Local     []*HostInfo          // roundRobin.hosts / dcAwareRR.localHosts
+	Remote    []*HostInfo          // dcAwareRR.remoteHosts
+	PolicyOK  bool                 // the policy type was recognised
+}
+
+// VerifEvSnapshot reads ring, pools and the given (unwrapped) policy's host lists.
+func VerifEvSnapshot(s *Session, p HostSelectionPolicy) VerifEvSnap {
+	var sn VerifEvSnap
+	s.ring.mu.RLock()
+	sn.RingByID = make(map[string]*HostInfo, len(s.ring.hosts))
+	for k, h := range s.ring.hosts {
+		sn.RingByID[k] = h
+	}
+	sn.RingByIP = make(map[string]string, len(s.ring.hostIPToUUID))
+	for k, id := range s.ring.hostIPToUUID {
+		sn.RingByIP[k] = id
+	}
+	sn.RingList = append(sn.RingList, s.ring.hostList...)
+	s.ring.mu.RUnlock()
+	sn.Pools = map[string]*HostInfo{}
+	sn.PoolConns = map[string]int{}
+	s.pool.mu.RLock()
+	pools := make(map[string]*hostConnPool, len(s.pool.hostConnPools))
+	for id, hp := range s.pool.hostConnPools {
+		pools[id] = hp
+	}
+	s.pool.mu.RUnlock()
+	for id, hp := range pools {
+		hp.mu.RLock()
+		sn.Pools[id] = hp.host
+		sn.PoolConns[id] = len(hp.conns)
+		hp.mu.RUnlock()
+	}
+	sn.PolicyOK = true
+	for p != nil {
+		switch t := p.(type) {
+		case *tokenAwareHostPolicy:
+			sn.TA = append(sn.TA, t.hosts.get()...)
+			p = t.fallback
+			continue
+		case *roundRobinHostPolicy:
+			sn.Local = append(sn.Local, t.hosts.get()...)
+		case *dcAwareRR:
+			sn.Local = append(sn.Local, t.localHosts.get()...)
+			sn.Remote = append(sn.Remote, t.remoteHosts.get()...)
+		default:
+			sn.PolicyOK = false
+		}
+		break
+	}
+	return sn
+}
+
+// VerifHostAddrs returns the node-to-node address, the connectAddress FIELD (nil = unset) and the
+// effective ConnectAddress() of a host (nil instead of its panic when there is no usable address).
+func VerifHostAddrs(h *HostInfo) (nodeAddr, connectField, connectAddr net.IP) {
+	nodeAddr = h.nodeToNodeAddress()
+	h.mu.RLock()
+	connectField = h.connectAddress
+	if a, _ := h.connectAddressLocked(); validIpAddr(a) {
+		connectAddr = a
+	}
+	h.mu.RUnlock()
+	return
+}
+
+// VerifEventDebouncerBatch feeds n frames to a fresh real eventDebouncer, flushes it the way its
+// flusher goroutine does, and returns which of the frames (by index) the callback received.
+func VerifEventDebouncerBatch(evs []VerifNodeEvent) []int {
+	got := make(chan []frame, 1)
+	e := newEventDebouncer("verif", func(fs []frame) { got <- fs }, nopLogger{})
+	defer e.stop()
+	idx := map[frame]int{}
+	for i, ev := range evs {
+		var f frame
+		if ev.Kind == "topology" {
+			f = &topologyChangeEventFrame{change: ev.Change, host: ev.Host, port: ev.Port}
+		} else {
+			f = &statusChangeEventFrame{change: ev.Change, host: ev.Host, port: ev.Port}
+		}
+		idx[f] = i
+		e.debounce(f)
+	}
+	e.mu.Lock()
+	e.timer.Stop()
+	n := len(e.events)
+	e.flush()
+	e.mu.Unlock()
+	if n == 0 {
+		return nil
+	}
+	var out []int
+	select {
+	case fs := <-got:
+		for _, f := range fs {
+			out = append(out, idx[f])
+		}
+	case <-time.After(5 * time.Second):
+		return []int{-1}
+	}
+	return out
+}
+
+// VerifControlHost returns the host id of the host the control connection is attached to ("" if none).
+func VerifControlHost(s *Session) string {
+	if s.control == nil {
+		return ""
+	}
+	ch := s.control.getConn()
+	if ch == nil || ch.host == nil {
+		return ""
+	}
+	return ch.host.HostID()
+}
+
+// VerifNodeEventBuffer returns the node-event debouncer's buffer of a session (frames received in the current
+// debounce window, in buffer order) as "<change> <ip>" strings.
+func VerifNodeEventBuffer(s *Session) []string {
+	e := s.nodeEvents
+	e.mu.Lock()
+	defer e.mu.Unlock()
+	out := make([]string, 0, len(e.events))
+	for _, f := range e.events {
+		switch t := f.(type) {
+		case *statusChangeEventFrame:
+			out = append(out, t.change+" "+t.host.String())
+		case *topologyChangeEventFrame:
+			out = append(out, t.change+" "+t.host.String())
+		}
+	}
+	return out
+}
